@@ -230,6 +230,6 @@ pub fn property() -> Property {
         rule: "cases are (byte-order spec in {LE,BE,Any::Little,Any::Big,Native}, width in {u8,u16,u32,u64,i32,i64}, buffer, offset); oracle = shift-and-add reference, offset'=offset+w on success, Err and offset untouched on failure. small: exhaustive enumeration for u8/u16 (every byte value / byte pair at every position and every failing offset of buffers of length 0..4). random: proptest choice sequences for all widths with boundary/sign patterns and offsets incl. usize::MAX-16..=usize::MAX. beyond_4gib: reads at offsets 2^32-16 .. 2^32+73 of a 2^32+64 byte buffer (lazily mapped zero pages), all specs and widths. Non-trivial: a successful read at a non-zero offset of a value with pairwise distinct bytes, or a failing read at a non-zero offset; distinct by case hash.",
         assumptions: &["64-bit little-endian host: NativeEndian is compared with cfg!(target_endian) of this build only"],
         subs: vec![Sub::enumerated("small", oracle_small, enum_small, true), Sub::new("random", oracle_random, 96, 3_000_000, 40_000_000), Sub::enumerated("beyond_4gib", oracle_big, enum_big, false)],
-        extras: vec![],
+        extras: vec![crate::fuzz::c04_choice],
     }
 }
